@@ -6,6 +6,7 @@
  *           anything a context remembers from earlier calls shows
  *   sgo <path> real_s real_n mono_s mono_n <what>  as seg, but between the open and the call the header changes under the
  *        client (1: generation odd, 2: version 0, 3: generation 0): it has no snapshot yet and answers from the empty record
+ *   lng <dir> <n> real_s real_n mono_s mono_n  as seg, <dir>/shm reached through a path of exactly n bytes
  *   siz                                       ->  sizes and offsets of the public structs
  * Built by the check with: gcc cdriver.c -I<repo>/clock-bound-ffi/include -L<target> -lclockbound -rdynamic
  * This program defines clock_gettime, which takes precedence over libc's for libclockbound.so too. */
@@ -33,6 +34,32 @@ int clock_gettime(clockid_t clk, struct timespec *ts) {
     if (publish_on_read) { const long long *p = publish_on_read; publish_on_read = NULL; cba_store(p); }
     if (clk == CLOCK_MONOTONIC || clk == CLOCK_MONOTONIC_COARSE || clk == CLOCK_MONOTONIC_RAW || clk == CLOCK_BOOTTIME) *ts = v_mono;
     else *ts = v_real;
+    return 0;
+}
+
+/* a client that sleeps inside a call sees time pass: while the virtual clock is on a sleep does not wait,
+ * it moves both virtual clocks on by the time asked for */
+static void v_advance(long long ns) {
+    if (ns <= 0) return;
+    struct timespec *c[2] = { &v_real, &v_mono };
+    for (int i = 0; i < 2; i++) {
+        __int128 t = (__int128)c[i]->tv_sec * 1000000000 + c[i]->tv_nsec + ns;
+        c[i]->tv_sec = (time_t)(t / 1000000000); c[i]->tv_nsec = (long)(t % 1000000000);
+    }
+}
+int nanosleep(const struct timespec *req, struct timespec *rem) {
+    if (!vclock_on) return (int)syscall(SYS_nanosleep, req, rem);
+    v_advance((long long)req->tv_sec * 1000000000LL + req->tv_nsec);
+    return 0;
+}
+int clock_nanosleep(clockid_t clk, int flags, const struct timespec *req, struct timespec *rem) {
+    if (!vclock_on) { long r = syscall(SYS_clock_nanosleep, clk, flags, req, rem); return r == 0 ? 0 : errno; }
+    long long want = (long long)req->tv_sec * 1000000000LL + req->tv_nsec;
+    if (flags & TIMER_ABSTIME) {
+        const struct timespec *cur = (clk == CLOCK_REALTIME) ? &v_real : &v_mono;
+        want -= (long long)cur->tv_sec * 1000000000LL + cur->tv_nsec;
+    }
+    v_advance(want);
     return 0;
 }
 
@@ -118,6 +145,7 @@ static void run_cba(const char *line) {
     vclock_on = 1;
     const clockbound_err *e = clockbound_now(cba_ctx, &res);
     /* the same call again: same segment content (same generation), same clock readings */
+    v_real.tv_sec = t[7]; v_real.tv_nsec = t[8]; v_mono.tv_sec = t[9]; v_mono.tv_nsec = t[10];
     clockbound_now_result res2; memset(&res2, 0, sizeof res2);
     clockbound_err_kind k1 = e ? e->kind : CLOCKBOUND_ERR_NONE;
     const clockbound_err *e2 = clockbound_now(cba_ctx, &res2);
@@ -167,7 +195,7 @@ static void run_cbp(const char *line) {
 int main(void) {
     char line[4096];
     while (fgets(line, sizeof line, stdin)) {
-        char tag[16], path[2048];
+        char tag[16]; static char path[12000];
         long long rs, rn, ms, mn;
         if (sscanf(line, "%15s", tag) != 1) continue;
         if (strcmp(tag, "cba") == 0) { run_cba(line); fflush(stdout); continue; }
@@ -184,6 +212,15 @@ int main(void) {
             continue;
         }
         long long what = 0;   /* sgo: what the daemon does to the header between the open and the call (1 generation odd, 2 version 0, 3 generation 0) */
+        if (strcmp(tag, "lng") == 0) {
+            /* lng <dir> <n> clocks : <dir>/shm reached through a path of exactly n bytes (the separator repeated) */
+            char dir[2048]; long long n;
+            if (sscanf(line, "%15s %2047s %lld %lld %lld %lld %lld", tag, dir, &n, &rs, &rn, &ms, &mn) != 7 || n > 11000) { printf("bad-line\n"); fflush(stdout); continue; }
+            long long pad = n - (long long)strlen(dir) - 3;
+            if (pad < 1) pad = 1;
+            strcpy(path, dir); memset(path + strlen(dir), '/', (size_t)pad); strcpy(path + strlen(dir) + pad, "shm");
+            printf("len:%zu ", strlen(path));
+        } else
         if (sscanf(line, "%15s %2047s %lld %lld %lld %lld %lld", tag, path, &rs, &rn, &ms, &mn, &what) < 6) { printf("bad-line\n"); fflush(stdout); continue; }
         /* one error struct for the whole run, as a caller retrying in a loop would use it: a failed
            open must overwrite every field of it */
